@@ -107,7 +107,12 @@ def size_of(model) -> int:
     return n
 
 
-def evaluate(proto: onnx.ModelProto, seed: int):
+def overridable(proto) -> set:
+    names = {i.name for i in proto.graph.input}
+    return {i.name for i in proto.graph.initializer if i.name in names}
+
+
+def evaluate(proto: onnx.ModelProto, seed: int, override=frozenset()):
     """Concrete outputs on seeded inputs; None when no evaluator can run the model."""
     rng = np.random.default_rng(seed)
     outs = []
@@ -115,6 +120,12 @@ def evaluate(proto: onnx.ModelProto, seed: int):
         feeds = {"in1": rng.normal(size=2).astype(np.float32), "in2": rng.normal(size=2).astype(np.float32), "cond": np.array(cond)}
         names = {i.name for i in proto.graph.input}
         feeds = {k: v for k, v in feeds.items() if k in names}
+        # initializers listed as inputs are overridable: feed them too (same values for the same name)
+        for init in proto.graph.initializer:
+            if init.name in names and init.name in override:
+                arr = onnx.numpy_helper.to_array(init)
+                r2 = np.random.default_rng(abs(hash(init.name)) % (2**31) + seed)
+                feeds[init.name] = r2.normal(size=arr.shape).astype(arr.dtype)
         res = None
         try:
             from onnx.reference import ReferenceEvaluator
@@ -162,7 +173,7 @@ def run_program(P: dict, pid: int, seed: int, pass_names=None, with_sequences=Tr
     proto_bytes = proto.SerializeToString()
     fresh = lambda: ir.from_proto(onnx.load_from_string(proto_bytes))  # noqa: E731 - proto-backed tensors alias their proto
     base = fresh()
-    if rewrite.abstract(base) != rewrite.trim_trailing_none(P):
+    if rewrite.strip_overridable(rewrite.abstract(base)) != rewrite.trim_trailing_none(P):
         out["bad_corpus"] = "abstract(concretize(P)) != P"
         return out
     before_abs = rewrite.abstract(base)
@@ -245,7 +256,9 @@ def concrete_witness(proto_bytes: bytes, after_bytes: bytes, seed: int) -> dict:
         except Exception as e:  # noqa: BLE001
             w["checker"] = str(e)[:200]
     if not w:
-        a, b = evaluate(before, seed), evaluate(after, seed)
+        # initializers that both models expose as inputs are fed as well (a caller may override them)
+        both = overridable(before) & overridable(after)
+        a, b = evaluate(before, seed, both), evaluate(after, seed, both)
         if a is not None and b is None:
             w["not-evaluable-after"] = True
         elif outputs_differ(a, b):
@@ -275,6 +288,7 @@ def load_programs(out_path: str, cap: int | None, seed: int):
         for line in f:
             if line.startswith('"{'):
                 progs.append(line)
+    progs.sort()        # TLC's output order depends on worker scheduling; the sample must not
     if cap is not None and len(progs) > cap:
         random.Random(seed).shuffle(progs)
         progs = progs[:cap]
